@@ -113,6 +113,7 @@ PERSONAS = {
     "other": dict(name="other", xtversion=False),
     "kitty-0.19": dict(name="kitty", version="0.19.3", kitty_graphics=True),
     "kitty-0.25": dict(name="kitty", version="0.25.0", kitty_graphics=True),
+    "kitty-0.25.2": dict(name="kitty", version="0.25.2", kitty_graphics=True),  # between the two version conditions
     "kitty-0.32": dict(name="kitty", version="0.32.2", kitty_graphics=True),
     "konsole": dict(name="Konsole", version="22.04.3", kitty_graphics=True, xtversion_style="space"),
     "konsole-old": dict(name="Konsole", version="21.12.3", kitty_graphics=False, xtversion_style="space"),
